@@ -156,10 +156,11 @@ pub fn check_case(c: &SepCase, l: &mut Local) -> Outcome {
     // renderings as the same token sequence
     for (name, r) in [("canonical", &r0), ("r1", &r1), ("r2", &r2)] {
         match tok::lex(r) {
-            Ok(o) if o.toks == *toks && !o.d6 => {},
-            Ok(o) if o.d6 => {
-                l.label("skipped: unclaimed word (D6)");
-                return Ok(());
+            // D6 words are opaque operand tokens: whatever they denote, separators must not matter
+            Ok(o) if o.toks == *toks => {
+                if o.d6 {
+                    l.label("contains a D6 word (opaque operand)");
+                }
             },
             _ => {
                 l.label("rejected: rendering not admissible for the reference tokenizer");
@@ -194,7 +195,7 @@ pub fn check_case(c: &SepCase, l: &mut Local) -> Outcome {
     };
     for (name, b, r) in [("r1", &b1, &r1), ("r2", &b2, &r2)] {
         let same = match (&b0, b) {
-            (Ok(t0), Ok(t)) => t0 == t,
+            (Ok(t0), Ok(t)) => adapt::tree_same(t0, t),
             (Err(e0), Err(e)) => adapt::err_variant(e0) == adapt::err_variant(e),
             _ => false,
         };
@@ -219,10 +220,26 @@ fn separator_signature(
     b0: &Result<adapt::Tree, adapt::Err>,
     b: &Result<adapt::Tree, adapt::Err>,
 ) -> String {
+    let stars = gaps.iter().flatten().any(|it| matches!(it, Item::Block(t) if t.contains('*')));
+    let non_ascii = gaps.iter().flatten().any(|it| matches!(it, Item::Block(t) | Item::Line(t) if !t.is_ascii()));
     for i in 1..toks.len() {
         if gap_needs_separator(toks, i) && !gaps[i].is_empty() && gaps[i].iter().all(|it| it.is_comment()) {
-            return "a comment alone does not separate tokens that would fuse".into();
+            return format!(
+                "a gap made only of comments between tokens that would fuse is read differently ({} vs {}{}{})",
+                short(b0),
+                short(b),
+                if stars { "; a comment body contains `*`" } else { "" },
+                if non_ascii { "; a comment body is not ASCII" } else { "" }
+            );
         }
+    }
+    if stars || non_ascii {
+        return format!(
+            "rendering with a comment whose body {} differs ({} vs {})",
+            if stars { "contains `*`" } else { "is not ASCII" },
+            short(b0),
+            short(b)
+        );
     }
     for g in gaps {
         for it in g {
@@ -247,6 +264,7 @@ fn short(b: &Result<adapt::Tree, adapt::Err>) -> String {
 fn arb_tokens() -> BoxedStrategy<Vec<Tok>> {
     let mut cfg = AstCfg::structural(4);
     cfg.rich_literals = true;
+    cfg.opaque = true;
     // no lone `&` / `|` can arise: sequences are built from whole tokens (D10)
     prop_oneof![
         4 => gen::arb_ast(&cfg).prop_map(|a| render_tokens(&a, &mut Minimal)),
@@ -279,6 +297,8 @@ pub fn class_representatives() -> Vec<Tok> {
         Tok::Bool(true),
         Tok::Str("s".into()),
         Tok::Str("//".into()),
+        Tok::Opaque("9223372036854775808".into()),
+        Tok::Opaque("inf".into()),
     ]);
     v
 }
@@ -426,7 +446,7 @@ fn replay_renderings(r0: &str, r1: &str, r2: &str) -> Outcome {
     for r in [r1, r2] {
         let b = build(r);
         let same = match (&b0, &b) {
-            (Ok(Ok(t0)), Ok(Ok(t))) => t0 == t,
+            (Ok(Ok(t0)), Ok(Ok(t))) => adapt::tree_same(t0, t),
             (Ok(Err(e0)), Ok(Err(e))) => adapt::err_variant(e0) == adapt::err_variant(e),
             _ => false,
         };
